@@ -11,7 +11,8 @@
   client's own `disconnect()` ends it.
 
   `specStep … = none` means the history is outside the property's quantifier:
-    * the peer is not a conformant server (answers a namespace that was not asked for or twice,
+    * the peer is not a conformant server (answers a namespace that was not asked for, refuses one
+      it has accepted,
       ends a namespace it has not accepted, sends an event named like a notification, breaks the
       framing of a binary packet), or
     * the history enters one of the regions excluded as known findings (DESIGN §6):
@@ -98,6 +99,8 @@ def specEv (m : Mode) (v : View) (e : Ev) : Option (View × List Note) :=
             | .ok s => some ({ v with asked := dropAsk v.asked n, acc := v.acc ++ [(n, s)] },
                              [.accepted n])
             | .error _ => none
+          -- a repeated CONNECT for a namespace that is connected is ignored
+          else if natt = 0 && hasKey v.acc n && !v.ref.contains root then some (v, [])
           else none
         else if p.type = CONNECT_ERROR then
           if natt = 0 && v.asked.contains n && (m = .win true || n ≠ root) then      -- F9
